@@ -310,9 +310,25 @@ pub fn fraccion_renovable_acs_nrb(ep: &EnergyPerformance) -> Result<f32, EpbdErr
         })
         .map(HasValues::values_sum)
         .sum();
-    dhw_used_by_cr_no_aux_or_low_scop
-        .entry(EAMBIENTE)
-        .and_modify(|e| *e -= dhw_used_low_scop_an);
+    // El consumo de EAMBIENTE de ACS no excluido se obtiene directamente de los componentes de consumo
+    // y no por diferencia, que deja residuos de redondeo (p.e. 0.51 - 0.50 < 0.01)
+    let dhw_used_env_not_excluded_an: f32 = ep
+        .components
+        .data
+        .iter()
+        .filter(|c| {
+            c.is_used()
+                && c.has_service(Service::ACS)
+                && c.has_carrier(EAMBIENTE)
+                && !c.comment().contains("CTEEPBD_EXCLUYE_SCOP_ACS")
+        })
+        .map(HasValues::values_sum)
+        .sum();
+    if dhw_used_low_scop_an != 0.0 {
+        dhw_used_by_cr_no_aux_or_low_scop
+            .entry(EAMBIENTE)
+            .and_modify(|e| *e = dhw_used_env_not_excluded_an);
+    }
 
     // Casos sin consumo de ACS
     if dhw_used_by_cr_no_aux_or_low_scop.is_empty() {
